@@ -147,9 +147,67 @@ func c01zeroInit(f *ssa.Function, addr ssa.Value) bool {
 	return false
 }
 
+// c01flagConstructor: f is an unexported function writing (ref: pV, isNil: pX, isPresent: !pX) from two of its parameters,
+// and every call site passes (v, IsNil(v)) or (nil, true). Returns the number of call sites.
+func c01flagConstructor(p *core.Prog, f *ssa.Function, isNilSt, isPresSt *ssa.Store) (int, bool, string) {
+	if f.Parent() != nil || f.Object() == nil || f.Object().Exported() {
+		return 0, false, ""
+	}
+	pX, isP := core.Resolve(isNilSt.Val).(*ssa.Parameter)
+	if !isP {
+		return 0, false, ""
+	}
+	not, isNot := core.Resolve(isPresSt.Val).(*ssa.UnOp)
+	if !isNot || not.Op != token.NOT || core.Resolve(not.X) != ssa.Value(pX) {
+		return 0, false, "isPresent is not the negation of the flag parameter stored as isNil"
+	}
+	base := isNilSt.Addr.(*ssa.FieldAddr).X
+	var pV *ssa.Parameter
+	core.Instrs(f, func(ins ssa.Instruction) {
+		if st, isS := ins.(*ssa.Store); isS && core.FieldKey(st.Addr) == "someDef.ref" && st.Addr.(*ssa.FieldAddr).X == base {
+			if prm, isPrm := core.Unwrap(core.Resolve(st.Val)).(*ssa.Parameter); isPrm {
+				pV = prm
+			}
+		}
+	})
+	if pV == nil {
+		return 0, false, "the wrapped value is not the constructor's parameter"
+	}
+	iX, iV := -1, -1
+	for i, prm := range f.Params {
+		if prm == pX {
+			iX = i
+		}
+		if prm == pV {
+			iV = i
+		}
+	}
+	sites, complete := core.CallSites(p, f)
+	if !complete || len(sites) == 0 || iX < 0 || iV < 0 {
+		return 0, false, ""
+	}
+	for _, s := range sites {
+		ci, isCI := s.Instr.(ssa.CallInstruction)
+		if !isCI || s.Kind != "call" || len(ci.Common().Args) <= iX || len(ci.Common().Args) <= iV {
+			return 0, false, "the flag constructor is not only called directly"
+		}
+		ax, av := core.Resolve(ci.Common().Args[iX]), core.Unwrap(core.Resolve(ci.Common().Args[iV]))
+		if call, isC := ax.(*ssa.Call); isC {
+			if g := core.Callee(&call.Call); g != nil && core.FuncName(g) == "fpgo.IsNil" && core.Unwrap(core.Resolve(call.Call.Args[0])) == av {
+				continue
+			}
+		}
+		if isTrueConst(ax) && core.IsNilConst(av) {
+			continue
+		}
+		return 0, false, "a call of " + f.Name() + " at " + p.InstrPos(s.Instr) + " does not pass (v, IsNil(v)) or the absent constant (nil, true)"
+	}
+	return len(sites), true, "private constructor (ref: v, isNil: flag, isPresent: !flag); every call site passes (v, IsNil(v)) or (nil, true)"
+}
+
 func runC01(c *core.Ctx) {
 	p := c.P
-	c.Rule("R1", "absence flags are only written at construction, consistently: (IsNil(v), !IsNil(v)) of the wrapped v, or the constant absent value; Maybe.Just returns None exactly on IsNil(in)", 3)
+	c.Rule("R1", "absence flags are only written at construction, consistently: (IsNil(v), !IsNil(v)) of the wrapped v, or the constant absent value; Maybe.Just returns None exactly on IsNil(in)", 2)
 	c.Rule("R2", "IsNil(obj) = val.IsNil() when Kind is Ptr, else !val.IsValid()", 1)
 	c.Rule("R3", "observers touch the wrapped value / call the callback only on the present edge and return the prescribed absent result on the absent edge", 20)
 	c.Rule("R4", "None's overrides equal the absent-edge results of the generic implementation", 15)
@@ -222,6 +280,16 @@ func runC01(c *core.Ctx) {
 				}
 			}
 		}
+		if !okF {
+			// a private constructor that is handed the absence flag: (ref: v, isNil: flag, isPresent: !flag); every call
+			// site passes IsNil(v) for the v it passes, or the absent constant (nil, true)
+			if n, ok2, d2 := c01flagConstructor(p, f, isNilSt, isPresSt); ok2 {
+				okF, detail = true, d2
+				nFlagStores += n - 1
+			} else if d2 != "" {
+				detail = d2
+			}
+		}
 		c.Check(okF, "R1", key, p.InstrPos(isNilSt), detail, detail)
 	}
 	if nFlagStores < 2 {
@@ -272,80 +340,113 @@ func runC01(c *core.Ctx) {
 	} else {
 		c.Analysed(core.FuncName(f))
 		ok, detail := func() (bool, string) {
-			nRet := 0
-			okAll := true
-			why := ""
+			// Decided over the three classes of reflect kinds the definition distinguishes: Ptr, Invalid (the zero
+			// Value: exactly the values for which IsValid() is false) and every other kind. Each return case is
+			// placed in the classes its path conditions leave possible and must give: Ptr → ValueOf(obj).IsNil(),
+			// Invalid → true, other → false (`!val.IsValid()` is true exactly on Invalid).
+			const (
+				kPtr = iota
+				kInvalid
+				kOther
+			)
+			valueOfObj := func(x ssa.Value) bool {
+				call, isC := core.Resolve(x).(*ssa.Call)
+				return isC && core.StdCallee(&call.Call) == "reflect.ValueOf" && core.Unwrap(call.Call.Args[0]) == ssa.Value(f.Params[0])
+			}
+			kindOfObj := func(x ssa.Value) bool {
+				call, isC := core.Resolve(x).(*ssa.Call)
+				if !isC || len(call.Call.Args) != 1 {
+					return false
+				}
+				if g := core.Callee(&call.Call); g != nil && core.FuncName(g) == "fpgo.Kind" && core.Unwrap(call.Call.Args[0]) == ssa.Value(f.Params[0]) {
+					return true
+				}
+				return core.StdCallee(&call.Call) == "reflect.(Value).Kind" && valueOfObj(call.Call.Args[0])
+			}
+			covered := [3]bool{}
 			for _, rcase := range core.ReturnCases(f) {
-				nRet++
-				isPtr, known := false, false
+				possible := [3]bool{true, true, true}
+				keep := func(only ...int) {
+					var nw [3]bool
+					for _, k := range only {
+						nw[k] = possible[k]
+					}
+					possible = nw
+				}
 				for _, cnd := range rcase.Facts {
 					if ip, subj, kn := c01kindIsPtrFact(p, cnd, 0); kn && (subj == nil || core.Resolve(subj) == ssa.Value(f.Params[0])) {
-						isPtr, known = ip, true
+						if ip {
+							keep(kPtr)
+						} else {
+							possible[kPtr] = false
+						}
+					}
+					n := core.Normalize(cnd)
+					if call, isC := n.V.(*ssa.Call); isC && core.StdCallee(&call.Call) == "reflect.(Value).IsValid" && valueOfObj(call.Call.Args[0]) {
+						if n.True {
+							possible[kInvalid] = false
+						} else {
+							keep(kInvalid)
+						}
 					}
 				}
 				for _, m := range rcase.Cmps() {
-					// Kind(obj) == reflect.Ptr (22)
-					call, isC := core.Resolve(m.X).(*ssa.Call)
-					if !isC || !core.IsIntConst(m.Y, int64(22)) {
+					k, isK := m.Y.(*ssa.Const)
+					if !isK || !kindOfObj(m.X) || (m.Op != token.EQL && m.Op != token.NEQ) || k.Value == nil {
 						continue
 					}
-					name := core.StdCallee(&call.Call)
-					if g := core.Callee(&call.Call); g != nil && core.FuncName(g) == "fpgo.Kind" && core.Unwrap(call.Call.Args[0]) == ssa.Value(f.Params[0]) || name == "reflect.(Value).Kind" {
-						if m.Op == token.EQL {
-							isPtr, known = true, true
-						} else if m.Op == token.NEQ {
-							isPtr, known = false, true
-						}
+					class := kOther
+					switch k.Int64() {
+					case 22:
+						class = kPtr
+					case 0:
+						class = kInvalid
 					}
-				}
-				if !known {
-					okAll, why = false, "a result is not decided by the test Kind(obj) == reflect.Ptr (other nillable kinds must not count as absent)"
-					continue
-				}
-				// a pointer whose reflect.Value is invalid does not exist (Kind() of the zero Value is Invalid): a defensive
-				// branch for it can never run
-				if isPtr {
-					dead := false
-					for _, cnd := range rcase.Facts {
-						n := core.Normalize(cnd)
-						if call, isC := n.V.(*ssa.Call); isC && !n.True && core.StdCallee(&call.Call) == "reflect.(Value).IsValid" {
-							if vo, isVO := core.Resolve(call.Call.Args[0]).(*ssa.Call); isVO && core.StdCallee(&vo.Call) == "reflect.ValueOf" && core.Unwrap(vo.Call.Args[0]) == ssa.Value(f.Params[0]) {
-								dead = true
-							}
-						}
-					}
-					if dead {
-						nRet--
-						continue
+					if m.Op == token.EQL {
+						keep(class)
+					} else if class != kOther {
+						possible[class] = false
 					}
 				}
 				v := core.Resolve(rcase.Vals[0])
-				valueOfObj := func(x ssa.Value) bool {
-					call, isC := core.Resolve(x).(*ssa.Call)
-					return isC && core.StdCallee(&call.Call) == "reflect.ValueOf" && core.Unwrap(call.Call.Args[0]) == ssa.Value(f.Params[0])
-				}
-				if isPtr {
-					call, isC := v.(*ssa.Call)
-					if !isC || core.StdCallee(&call.Call) != "reflect.(Value).IsNil" || !valueOfObj(call.Call.Args[0]) {
-						okAll, why = false, "for pointers the result is not reflect.ValueOf(obj).IsNil()"
-					}
-				} else {
-					not, isNot := v.(*ssa.UnOp)
-					if !isNot || not.Op != token.NOT {
-						okAll, why = false, "for non-pointers the result is not !reflect.ValueOf(obj).IsValid()"
+				for class, poss := range possible {
+					if !poss {
 						continue
 					}
-					call, isC := core.Resolve(not.X).(*ssa.Call)
-					if !isC || core.StdCallee(&call.Call) != "reflect.(Value).IsValid" || !valueOfObj(call.Call.Args[0]) {
-						okAll, why = false, "for non-pointers the result is not !reflect.ValueOf(obj).IsValid()"
+					covered[class] = true
+					// the value of the result in this class
+					got := "?"
+					switch x := v.(type) {
+					case *ssa.Const:
+						if isTrueConst(x) {
+							got = "true"
+						} else {
+							got = "false"
+						}
+					case *ssa.Call:
+						if core.StdCallee(&x.Call) == "reflect.(Value).IsNil" && valueOfObj(x.Call.Args[0]) {
+							got = "isnil"
+						}
+					case *ssa.UnOp:
+						if x.Op == token.NOT {
+							if call, isC := core.Resolve(x.X).(*ssa.Call); isC && core.StdCallee(&call.Call) == "reflect.(Value).IsValid" && valueOfObj(call.Call.Args[0]) {
+								if class == kInvalid {
+									got = "true"
+								} else {
+									got = "false"
+								}
+							}
+						}
+					}
+					want := map[int]string{kPtr: "isnil", kInvalid: "true", kOther: "false"}[class]
+					if got != want {
+						name := map[int]string{kPtr: "pointers", kInvalid: "the untyped nil (invalid reflect.Value)", kOther: "non-pointer kinds (nil slices/maps/chans/funcs included)"}[class]
+						return false, fmt.Sprintf("for %s IsNil yields %s, expected %s (Ptr → ValueOf(obj).IsNil(); otherwise !ValueOf(obj).IsValid())", name, got, want)
 					}
 				}
 			}
-			if nRet != 2 {
-				return false, fmt.Sprintf("IsNil has %d results, expected the pointer case and the general case (a switch over more kinds makes nil slices/maps/chans/funcs absent)", nRet)
-			}
-			if !okAll {
-				return false, why
+			if !(covered[kPtr] && covered[kInvalid] && covered[kOther]) {
+				return false, "IsNil does not return on every kind class"
 			}
 			return true, "Ptr → val.IsNil(); otherwise !val.IsValid()"
 		}()
